@@ -1,8 +1,8 @@
-import RichModel.Drv.Proto
-/- Driver handlers for property C09 (stub: filled in when the model is built). -/
+import RichModel.Drv.C01
+/- Driver handlers for property C09: the composition layer is shared with C01 (`Drv/C01.lean`). -/
 namespace RichModel.Drv.C09
 open RichModel RichModel.Proto
 
-def handlers : List (String × (List String → String)) := []
+def handlers : List (String × (List String → String)) := RichModel.Drv.C01.handlers
 
 end RichModel.Drv.C09
